@@ -148,7 +148,7 @@ CHECKS["C13"] = {
         H("cff", "c13.go", "VerifH_C13_charset_long", ["done"], quick={"timeout": 280}),
         H("cff", "c13.go", "VerifH_C13_fdselect", ["format3", "format0"], quick={"params": {"nchoices": 5}, "timeout": 280}, thorough={"params": {"nchoices": 7}, "timeout": 2400}),
         H("cff", "c13.go", "VerifH_C13_private", ["made"], quick={"timeout": 200}),
-        H("cff", "c18.go", "VerifH_C13_offsets", ["read"], quick={"params": {"noticebase": 950, "noticespan": 150}, "timeout": 280, "shards": 2}, thorough={"params": {"noticebase": 0, "noticespan": 1300}, "timeout": 2400, "shards": 2}),
+        H("cff", "c18.go", "VerifH_C13_offsets", ["read"], quick={"params": {"noticebase": 1040, "noticespan": 70}, "timeout": 280, "shards": 2}, thorough={"params": {"noticebase": 0, "noticespan": 1300}, "timeout": 2400, "shards": 2}),
         H("cff", "c13.go", "VerifH_C13_width", ["selected"], quick={"params": {"maxglyphsel": 2}, "timeout": 280}, thorough={"params": {"maxglyphsel": 3}, "timeout": 2400}),
     ],
     "bounds": {"quick": "DICT: 1..2 operands, each any int32; arbitrary DICT bytes (<=2, no reals); INDEX: 0..3 blobs of 0..2 symbolic bytes, and single blobs at the offSize thresholds {0,1,254,255,256,65534,65535,65536,70000}; charset: 1..4 symbolic 16-bit SIDs/CIDs (every run structure) plus runs of {255,256,257,300,513}; FDSelect: {1,2,5,8,9} glyphs over 1..3 font dicts, symbolic query glyph; widths: fonts of 1 or 2 glyphs with symbolic widths on a 1/16 grid in [-2000,2000] through selectWidths, makePrivateDict, encodeCharString and decodeCharString",
